@@ -1005,8 +1005,13 @@ class UserType(TupleType):
 
     @classmethod
     def apply_parameters(cls, subtypes, names):
-        keyspace = subtypes[0].cass_parameterized_type()  # when parsed from cassandra type, the keyspace is created as an unrecognized cass type; This gets the name back
-        udt_name = _name_from_hex_string(subtypes[1].cassname)
+        # when parsed from cassandra type, the keyspace and the hex-encoded type name are created as unrecognized cass
+        # types (this gets the names back), except that parse_casstype_args turns all-digit tokens into ints
+        # (e.g. a numeric keyspace, or 61626364, the hex form of "abcd")
+        keyspace, encoded_name = subtypes[0], subtypes[1]
+        keyspace = str(keyspace) if isinstance(keyspace, int) else keyspace.cass_parameterized_type()
+        encoded_name = str(encoded_name) if isinstance(encoded_name, int) else encoded_name.cassname
+        udt_name = _name_from_hex_string(encoded_name)
         field_names = tuple(_name_from_hex_string(encoded_name) for encoded_name in names[2:])  # using tuple here to match what comes into make_udt_class from other sources (for caching equality test)
         return cls.make_udt_class(keyspace, udt_name, field_names, tuple(subtypes[2:]))
 
